@@ -127,7 +127,9 @@ func varintBytesEvent(prefix, s []byte) ev {
 		}
 		e["a8_back"], e["a8_n"] = B(back), n
 	} else {
-		e["a8_panic"], e["a8_out"], e["a8_back"], e["a8_n"] = "skipped", B(nil), B(nil), 0
+		// a string too long for an 8-bit length: the documented contract is a panic (observed, not required)
+		p := guard(func() { quicwire.AppendUint8Bytes(nil, s) })
+		e["a8_panic"], e["a8_out"], e["a8_back"], e["a8_n"] = "too long: "+p, B(nil), B(nil), 0
 	}
 	return e
 }
@@ -149,6 +151,10 @@ func genVarint(c *ctx, emit func(ev)) {
 		w.val(v, pick())
 	}
 	// class boundaries +-2 and every power of two +-1
+	// (values above 2^62-1 are outside the property: the encoder's documented contract is a panic, which is observed only)
+	for _, v := range []uint64{1 << 62, 1<<62 + 1, 1 << 63, 1<<64 - 1} {
+		w.val(v, nil)
+	}
 	bounds := []uint64{63, 64, 16383, 16384, 1<<30 - 1, 1 << 30, 1<<62 - 1}
 	for _, b := range bounds {
 		for d := -2; d <= 2; d++ {
